@@ -91,7 +91,14 @@ fn mutate(src: &str, rng: &mut Rng, pool: &[String]) -> (String, &'static str) {
                 return (src.to_string(), "none");
             }
             let (s, e) = words[rng.below(words.len())];
-            let repl = if rng.chance(1, 2) { "zz_unknown".to_string() } else { chars[s..e].iter().rev().collect() };
+            let len = e - s;
+            let repl: String = match rng.below(5) {
+                0 => "zz_unknown".to_string(),
+                1 => chars[s..e].iter().rev().collect(),
+                2 if len > 2 => chars[s + 1 + rng.below((len - 2).min(2))..e].iter().collect(), // a proper suffix
+                3 if len > 2 => chars[s..e - 1].iter().collect(),                               // a proper prefix
+                _ => format!("{}x", chars[s..e].iter().collect::<String>()),
+            };
             (format!("{}{}{}", chars[..s].iter().collect::<String>(), repl, chars[e..].iter().collect::<String>()), "identifier-rename")
         }
         8 if !chars.is_empty() => {
@@ -239,6 +246,19 @@ pub fn check_input(rep: &mut Report, name: &str, src: &str, how: &str, timings: 
                             rep.count_n(&format!("refs-resolved:{k}"), v);
                         }
                         for d in dangling.iter().take(3) {
+                            // what kind of text the unresolved reference is: a well-formed name that simply does not
+                            // exist is a different failure from an empty or garbled target
+                            let r = d.reference.as_str();
+                            let category = if r.is_empty() {
+                                "empty"
+                            } else if r.starts_with('.') {
+                                "relative"
+                            } else if r.split('.').all(|c| !c.is_empty() && c.chars().all(|ch| ch.is_ascii_alphanumeric() || ch == '_' || ch == '-')) {
+                                if r.split('.').any(|c| c.chars().all(|ch| ch.is_ascii_digit())) { "indexed-path" } else if r.contains('.') { "dotted-name" } else { "plain-name" }
+                            } else {
+                                "garbled"
+                            };
+                            let _ = category;
                             let sig = format!("output/dangling:{}", d.kind);
                             rep.violation(&sig, wit(json!({"reference": d.reference, "at": d.at, "why": d.why, "json": truncate(&json_text, 3000)})));
                         }
@@ -272,6 +292,9 @@ pub fn run(cfg: &Cfg) -> i32 {
             pool.push((c.name.clone(), c.src.unwrap()));
         }
     }
+    // lists that share item names, used unqualified (name resolution must not depend on table order)
+    pool.push(("shared-items-1".into(), "LIST colours = (red), green, shared\nLIST moods = calm, (shared), angry\nVAR v = 0\n-> start\n=== start ===\n~ v = LIST_VALUE(shared)\nValue {v} {(shared)} {(shared, red)} {colours ? (shared)}\n* [go] -> other\n=== other ===\n{(calm, shared)} {LIST_ALL((shared))}\n-> END\n".into()));
+    pool.push(("shared-items-2".into(), "LIST a = x, (y), z\nLIST b = (x), y, w\nLIST c = z, w, (x)\nFirst {(x)} {(y, z)} {(w)}\n~ temp t = (x, w)\n{t} {LIST_COUNT(t)} {LIST_MIN((z, y))}\n-> END\n".into()));
     let texts: Vec<String> = pool.iter().map(|p| p.1.clone()).collect();
     let mut classes: std::collections::BTreeMap<String, u64> = Default::default();
     let mut timings: Vec<f64> = Vec::new();
@@ -294,7 +317,7 @@ pub fn run(cfg: &Cfg) -> i32 {
                 continue;
             }
             let mut rng = Rng::derive(cfg.seed, "C06", k);
-            let (name, base) = &pool[rng.below(pool.len())];
+            let (name, base) = if k % 40 == 7 { &pool[pool.len() - 1 - (k as usize / 40) % 2] } else { &pool[rng.below(pool.len())] };
             let mut src = base.clone();
             let mut how = Vec::new();
             let nm = if k % 50 == 0 { 0 } else { 1 + rng.below(3) };
